@@ -204,7 +204,11 @@ func newProgGen(r *Rng) *progGen {
 func (g *progGen) fact() Pred {
 	n := Pick(g.r, g.preds)
 	p := Pred{Name: n}
-	for i := 0; i < g.arity[n]; i++ {
+	ar := g.arity[n]
+	if g.r.Chance(1, 12) {
+		ar = varyArity(g.r, ar) // same name, other arity
+	}
+	for i := 0; i < ar; i++ {
 		p.Terms = append(p.Terms, Pick(g.r, g.consts))
 	}
 	return p
@@ -213,7 +217,11 @@ func (g *progGen) fact() Pred {
 func (g *progGen) atom(varBias int) Pred {
 	n := Pick(g.r, g.preds)
 	p := Pred{Name: n}
-	for i := 0; i < g.arity[n]; i++ {
+	ar := g.arity[n]
+	if g.r.Chance(1, 15) {
+		ar = varyArity(g.r, ar)
+	}
+	for i := 0; i < ar; i++ {
 		if g.r.Chance(varBias, 10) {
 			p.Terms = append(p.Terms, V(Pick(g.r, g.vars)))
 		} else {
